@@ -228,7 +228,7 @@ Variable p : pspec.
 Variable lay : layout.
 Variable so : bool.
 Variable g : cgraph.
-Hypothesis SOK : spec_okb p so = true.
+Hypothesis WFH : spec_wf p so.
 Hypothesis DOK : dgraph_ok p lay so = true.
 Hypothesis SAME : same_graph p lay so g = true.
 
@@ -259,8 +259,14 @@ Lemma gconn_declared x q n : V x -> gconn g (enc p lay x) q n -> exists y, V y /
 Proof. intros Vx H. destruct graph_links as [GE [GW _]]. unfold gconn in H. rewrite GE, GW, conn_pconn, nlinks_enc in H.
   destruct (transfer_fwd dnode nat (enc p lay) V LL enc_inj LL_valid x q n Vx H) as [y [Vy [E _]]]. eauto. Qed.
 
-Theorem seeded_graph_denotes x q y : V x -> V y ->
+Theorem seeded_graph_denotes_wf x q y : V x -> V y ->
   (gconn g (enc p lay x) q (enc p lay y) <->
    pconn dnode (Rc_links p so) (fst (kap p so x)) (xorb q (xorb (snd (kap p so x)) (snd (kap p so y)))) (fst (kap p so y))).
-Proof. intros Vx Vy. rewrite (gconn_dgraph x q y Vx Vy). apply dgraph_contraction. apply spec_okb_wf, SOK. Qed.
+Proof. intros Vx Vy. rewrite (gconn_dgraph x q y Vx Vy). apply dgraph_contraction. exact WFH. Qed.
 End Final.
+
+Theorem seeded_graph_denotes p lay so g : spec_okb p so = true -> dgraph_ok p lay so = true -> same_graph p lay so g = true ->
+  forall x q y, In x (nodes p so) -> In y (nodes p so) ->
+  (gconn g (enc p lay x) q (enc p lay y) <->
+   pconn dnode (Rc_links p so) (fst (kap p so x)) (xorb q (xorb (snd (kap p so x)) (snd (kap p so y)))) (fst (kap p so y))).
+Proof. intros SOK. apply seeded_graph_denotes_wf. apply spec_okb_wf, SOK. Qed.
